@@ -33,6 +33,16 @@ type e2eCase struct {
 	Timestamp *bool      `json:"timestamp,omitempty"`
 	Container *bool      `json:"container,omitempty"`
 	Color     bool       `json:"color,omitempty"`
+	// Metric wraps the log query into count_over_time(...[10s]): the engine answers, the renderer knows
+	// stream results only, so the command must fail (not print nothing and succeed)
+	Metric bool `json:"metric,omitempty"`
+}
+
+func (t e2eCase) query() string {
+	if t.Metric {
+		return "count_over_time(" + logQueryText(t.Sel, t.Stages) + "[10s])"
+	}
+	return logQueryText(t.Sel, t.Stages)
 }
 
 func (t e2eCase) args() []string {
@@ -59,7 +69,7 @@ func (t e2eCase) args() []string {
 	if t.Color {
 		a = append(a, "--color")
 	}
-	return append(a, logQueryText(t.Sel, t.Stages))
+	return append(a, t.query())
 }
 
 func e2eGen(r *rand.Rand) e2eCase {
@@ -97,6 +107,7 @@ func e2eGen(r *rand.Rand) e2eCase {
 		b := r.Intn(2) == 0
 		t.Container = &b
 	}
+	t.Metric = r.Intn(12) == 0
 	// colour stays off: which palette colour a container gets follows the order of the result's streams,
 	// which is map order and differs from run to run (C15 promises consistency within one output only)
 	return t
@@ -151,10 +162,10 @@ func init() {
 				if t.Limit != 0 {
 					limit = t.Limit
 				}
-				data, eerr := evalQuery(q, logQueryText(t.Sel, t.Stages), start, end, timeDur(step), limit)
+				data, eerr := evalQuery(q, t.query(), start, end, timeDur(step), limit)
 				want := ""
-				wantFail := eerr != nil || stepRejected
-				if eerr == nil && !stepRejected {
+				wantFail := eerr != nil || stepRejected || t.Metric
+				if eerr == nil && !stepRejected && !t.Metric {
 					type ent struct {
 						T uint64 `json:"t"`
 						V string `json:"v"`
@@ -199,7 +210,8 @@ func init() {
 				if wantFail != (code != 0) {
 					return L(A("exit-differs"), N(int64(code)), B(se), B(fmt.Sprint(eerr)))
 				}
-				if !wantFail && so != want {
+				if so != want {
+					// a failing command prints nothing on stdout
 					return L(A("stdout-differs"), B(want), B(so))
 				}
 				// 4. what the daemon was asked: every selected container once, whole seconds of start and end
@@ -247,7 +259,7 @@ func init() {
 				if t.Since != "" {
 					form = "end+since"
 				}
-				return []string{"e2e:" + form, fmt.Sprintf("e2e:limit=%v", t.Limit != 0), "e2e:impl=" + func() string {
+				return []string{"e2e:" + form, fmt.Sprintf("e2e:limit=%v", t.Limit != 0), fmt.Sprintf("e2e:metric=%v", t.Metric), "e2e:impl=" + func() string {
 					if impl.IsL {
 						return impl.Head()
 					}
@@ -257,7 +269,7 @@ func init() {
 			Key:     func(t e2eCase) string { return strings.Join(t.args(), " ") + fmt.Sprint(t.Ctrs) },
 			Timeout: 40e9,
 		}
-		c.Res.Rule += "; END TO END: the plugin binary (cobra command, flag parsing, Docker client over HTTP, querier, engine, renderer) run against a fake Docker daemon on a unix socket: 1-5 containers with Docker labels and interleaved logs (distinct timestamps) x log query (selector, line/label filters, logfmt, json, drop, label_format) x --start/--end in the four timestamp spellings or --end/--since x --limit x --timestamp/--container; its stdout must equal renderResult of Engine.Eval over the same logs with the parameters the flags model resolves, its exit status must agree, and the daemon must have been asked exactly once per selected container with since/until = whole seconds of start/end, timestamps, stdout, stderr and tail=all"
+		c.Res.Rule += "; END TO END: the plugin binary (cobra command, flag parsing, Docker client over HTTP, querier, engine, renderer) run against a fake Docker daemon on a unix socket: 1-5 containers with Docker labels and interleaved logs (distinct timestamps) x log query (selector, line/label filters, logfmt, json, drop, label_format; 1 in 12 wrapped into count_over_time, which the engine answers and the renderer must refuse with a failing exit status and no output) x --start/--end in the four timestamp spellings or --end/--since x --limit x --timestamp/--container; its stdout must equal renderResult of Engine.Eval over the same logs with the parameters the flags model resolves, its exit status must agree, and the daemon must have been asked exactly once per selected container with since/until = whole seconds of start/end, timestamps, stdout, stderr and tail=all"
 		RunSpec(c, spec, c.Scale(150, 2500))
 	}
 	propsExtra["C16"] = append(propsExtra["C16"], e2e)
